@@ -1415,6 +1415,21 @@ FUNCS = [
                     "  if decide (Copia.Target.utf8Len before_colon > 1) && !before_colon.contains '/' && !before_colon.contains '\\\\' then\n"
                     "    return (Copia.Target.Loc.remote before_colon after_)"),
                    ("Self::Local(PathBuf::from(s))", "return (Copia.Target.Loc.localPath s)")]),
+    # ---- hub.rs: the client's List and the handshake's verdict
+    dict(group="hubsync", file="src/bin/copia/hub.rs", name="list", sig=None,
+         lean="def clientListGen {H : Type} (recv : Option (Copia.Hub.Reply H)) : Bool × Option (List (List (List Char) × H)) := Id.run do\n"
+              "  -- world: the hub's next reply (none = `recv` fails). Result: (a List request was sent, Ok(map) or none)\n"
+              "  let mut sent := false",
+         calls={}, paths={},
+         verbatim=[("self.send(&Request::List)?;", "sent := true"),
+                   ('match self.recv()? { Response::Fingerprints(m) => Ok(m), other => Err(std::io::Error::new( std::io::ErrorKind::InvalidData, format!("expected Fingerprints, got {other:?}"), )), }',
+                    "return (match recv with\n  | some (Copia.Hub.Reply.fingerprints m) => (sent, some m)\n  | _ => (sent, none))")]),
+    dict(group="hubsync", file="src/bin/copia/hub.rs", name="connect (the handshake's verdict)", fn="connect", sig=None,
+         slice=("match me.recv()? {", "format!(\"bad hub handshake: {other:?}\"),"), slice_close=1,
+         lean="def handshakeGen {H : Type} (recv : Option (Copia.Hub.Reply H)) : Bool := Id.run do\n  -- true = Ok(me): the connection is used",
+         calls={}, paths={},
+         verbatim=[('match me.recv()? { Response::Hello { version } if version >= 1 => Ok(me), other => Err(std::io::Error::new( std::io::ErrorKind::InvalidData, format!("bad hub handshake: {other:?}"), )), }',
+                    "return (match recv with\n  | some (Copia.Hub.Reply.hello version) => decide (version ≥ 1)\n  | _ => false)")]),
     # ---- hub.rs: the client side of one Put
     dict(group="hubsync", file="src/bin/copia/hub.rs", name="put", sig=None,
          lean="def clientPutGen {P H : Type} (metadata_len : Option Nat) (file_bytes : Option Copia.Hub.Bytes) (recv : Option (Copia.Hub.Reply H))\n"
